@@ -879,6 +879,44 @@ def corpus_dm():
     return out
 
 
+def complex_context_monitor(chk, tier):
+    """the excited-state thermal states requested inside the eigenbasis of a COMPLEX Hermitian operator: read after the context (the
+    object was created inside it and comes back to the site basis) they are the states requested outside any context.  Each case on
+    a freshly built aggregate (objects read inside a complex basis keep rounding-size imaginary parts)."""
+    import io
+    import numpy
+    import quantarhei as qr
+    r = cm.rng(PID + "cplx")
+    for k in range(4 if tier == "quick" else 24):
+        reset_manager()
+        s = gen_sys(r)
+        s["mode"], s["mult"] = None, 1
+        s["seed"] = int(s["seed"]) + 17 * (k + 1)          # a key of its own in the cache of built aggregates
+        req = ["strong", "weak"][k % 2]
+        T = [300.0, 77.0, 5.0][k % 3]
+        c = {"kind": "complex_context", "sys": s, "req": req, "temp": T}
+        try:
+            with contextlib.redirect_stdout(io.StringIO()):
+                agg = build_agg(s)
+                n = agg.get_Hamiltonian().dim
+                ct, lim = REQ[req]
+                ref = numpy.array(agg.get_DensityMatrix(condition_type=ct, relaxation_theory_limit=lim, temperature=T).data).copy()
+                rs = numpy.random.RandomState(s["seed"] % (2 ** 31))
+                a = rs.randn(n, n) + 1j * rs.randn(n, n)
+                K = qr.qm.hilbertspace.operators.SelfAdjointOperator(data=a + a.conj().T)
+                with qr.eigenbasis_of(K):
+                    rho = agg.get_DensityMatrix(condition_type=ct, relaxation_theory_limit=lim, temperature=T)
+                got = numpy.array(rho.data)
+            chk.count("complex_context:" + req)
+            chk.case(("complex_context", k, req, T), True)
+            dev = float(numpy.max(numpy.abs(got - ref)))
+            if dev > 1e-9:
+                chk.violation("complex_context:" + req, "get_DensityMatrix(%s) at %g K requested inside the eigenbasis of a complex Hermitian operator "
+                              "and read after the context differs from the state requested outside by %.3g" % (req, T, dev), "monitor", c)
+        except Exception as e:
+            chk.violation("complex_context:exception", "complex-context monitor raised %r" % (e,), "monitor", c)
+
+
 def main():
     chk = cm.Check(PID, args.tier)
     chk.rule = ("direct calls: blocks of 1-8 states, absolute energies 0..+-60000 1/cm, spreads 1..5000 1/cm, exact degeneracies, "
@@ -918,6 +956,8 @@ def main():
                 cases.append({"kind": "agg_rdm", "sys": c["sys"]})
         cases += [gen_mol(r, k) for k in range(nmol)]
     run(chk, cases)
+    if not args.replay:
+        complex_context_monitor(chk, args.tier)
     chk.finish()
 
 
